@@ -264,10 +264,8 @@ def coq_struct(case, raw):
 
 # ------------------------------------------------------------------ verdicts
 def finding_key(case, coq):
-    """class of the known (unrepaired) finding, computed from the input"""
-    if case["kind"] == "battery" and coq.get("neg_power") is True:
-        # negative current_now / power_now used for the remaining time: negative secsleft
-        return "battery-negative-power"
+    # no known (unrepaired) finding: the seven defects this check found were repaired in /repo (3a32a00, e09e22a,
+    # 60747a2, d196a16, 64999d5, 1b69de5, 90bacb2); their inputs live in corpus/C19 and are replayed first on every run
     return None
 
 
@@ -337,8 +335,9 @@ MANIFEST = {
             "cpuN lines of /proc/stat, cpu_count(cores) = distinct topology lists, else sum over packages of 'cpu cores'. Sensors "
             "visible only below /sys/devices/platform/coretemp.* and fans of both directory nestings are reported (every layout). "
             "Histories of several queries over a changing tree in one process are checked step by step (no memory between calls). "
-            "Refuted-theorems record the six defects found and repaired (code before 60747a2, e09e22a, 3a32a00, d196a16, 64999d5, "
-            "1b69de5). "
+            "Battery attributes are signed integers (sign, blanks, 0, -0): read without TypeError/ValueError, seconds from the magnitude "
+            "of power_now/current_now. Refuted-theorems record the seven defects found and repaired (code before 60747a2, e09e22a, "
+            "3a32a00, d196a16, 64999d5, 1b69de5, 90bacb2). "
             "The hand-written model is tied to the code by executing both (vm_compute vs the real psutil over a fake /sys and "
             "/proc behind a path-rewriting shim) on generated layouts.",
     "note": "Trusted: Coq kernel + vm_compute; model coq/C19/Model.v (tied by the correspondence run only); kernel formats in "
